@@ -392,14 +392,51 @@ class FakeSocket:
     def detach(self):
         self._detached = True
 
-    def makefile(self, mode="r", *a, **k):
-        raise SeamGap("makefile() not provided")
+    def makefile(self, mode="r", buffering=None, **k):
+        """File object over the simulated connection (binary modes only), so
+        that a reader rewritten on top of makefile() still runs in the seam."""
+        import io
+        if "b" not in mode:
+            raise SeamGap("makefile(%r): only binary modes are provided" % mode)
+        raw = _RawSock(self, "r" in mode, "w" in mode)
+        if buffering == 0:
+            return raw
+        if "r" in mode and "w" in mode:
+            return io.BufferedRWPair(raw, raw, buffering or io.DEFAULT_BUFFER_SIZE)
+        if "w" in mode:
+            return io.BufferedWriter(raw, buffering or io.DEFAULT_BUFFER_SIZE)
+        return io.BufferedReader(raw, buffering or io.DEFAULT_BUFFER_SIZE)
 
     def __enter__(self):
         return self
 
     def __exit__(self, *a):
         self.close()
+
+
+import io as _io
+
+
+class _RawSock(_io.RawIOBase):
+    def __init__(self, sock, r, w):
+        _io.RawIOBase.__init__(self)
+        self._sock = sock
+        self._r, self._w = r, w
+
+    def readable(self):
+        return self._r
+
+    def writable(self):
+        return self._w
+
+    def readinto(self, b):
+        data = self._sock.recv(len(b))
+        b[:len(data)] = data
+        return len(data)
+
+    def write(self, b):
+        self._sock.sendall(bytes(b))
+        return len(b)
 
 
 class FakeTLSSocket(FakeSocket):
